@@ -473,7 +473,7 @@ type c18Input struct {
 func runC18(seed int64, tier string, out string) {
 	r := rand.New(rand.NewSource(seed))
 	meta := newMeta("C18", seed)
-	meta.Rule = "inputs: random code-point strings (ASCII, white space of every kind, quotation marks, backslashes, non-ASCII letters/digits, folding specials, private-use code points at the goyacc token numbers, invalid UTF-8), token soups (keywords in every case incl. Unicode folding, operators, quotation marks, comment openers, numbers around the int64/float64 limits, variables, placeholders, external commands glued at random), mutated valid queries, a grammar-based corpus (expressions, SELECT with every clause, DML, DDL, cursor/variable/flow statements) and the inputs of the pinned parser tests; every input is scanned by parser.Scanner (modes: prepared on/off x ANSI_QUOTES on/off) and the token stream is compared with Model.Lex.tokens; option.Escape*/Unescape*/Quote* on random strings are compared with Model.Escape; parser.Parse runs on every input in all four modes (time bound, no panic, error position inside the input, print/re-parse/print identity, evaluation identity for corpus expressions). distinct = distinct (mode, token-kind sequence, error classes) signatures of scanner cases with at least two tokens + distinct escape inputs + distinct printed statements re-parsed."
+	meta.Rule = "inputs: random code-point strings (ASCII, white space of every kind, quotation marks, backslashes, non-ASCII letters/digits, folding specials, private-use code points at the goyacc token numbers, invalid UTF-8), token soups (keywords in every case incl. Unicode folding, operators, quotation marks, comment openers, numbers around the int64/float64 limits, variables, placeholders, external commands glued at random), mutated valid queries, texts that END in every scanner state (prefixes of valid texts; texts followed by a lone CR, an opening quotation mark, a comment opener, a sigil, a half number ...), a grammar-based corpus (expressions, SELECT with every clause, DML, DDL, cursor/variable/flow statements) and the inputs of the pinned parser tests; every input is scanned by parser.Scanner (modes: prepared on/off x ANSI_QUOTES on/off) and the token stream is compared with Model.Lex.tokens; option.Escape*/Unescape*/Quote* on random strings are compared with Model.Escape; parser.Parse runs on every input in all four modes (time bound, no panic, error position inside the input, print/re-parse/print identity, evaluation identity for corpus expressions). distinct = distinct (mode, token-kind sequence, error classes) signatures of scanner cases with at least two tokens + distinct escape inputs + distinct printed statements re-parsed."
 	w := &shardWriter{dir: out, prop: "C18", max: 1200, meta: meta, header: c18Header(),
 		footer: func(ls []string) string {
 			names := map[string]string{"scases": "[]", "ecases": "[]", "ccases": "[]", "fcases": "[]"}
@@ -539,6 +539,35 @@ func runC18(seed int64, tier string, out string) {
 			q = "@%" + option.QuoteIdentifier(s)
 		}
 		inputs = append(inputs, c18Input{Src: q + tails[r.Intn(len(tails))], Origin: "quoted", Prep: -1, Ansi: -1})
+	}
+
+	// every place the text can END: prefixes of valid texts cut at random code points, all prefixes of a few
+	// short ones, and texts followed by each character that makes the scanner look ahead (a lone CR, the
+	// openers of strings, identifiers, comments, variables, ...), so that the end of input is met in every
+	// scanner state
+	enders := []string{"\r", "\r\n", "\n", " \r", "\t", "'", "\"", "`", "\\", "'\\", "@", "@@", "@%", "@#", "@%`", ":", "::", "a::", ":=", "-", "--", "--\r", "/", "/*", "/* *", "*", "$", "${", "?", "!", "<", "|", "1.", "1e", "1e+", "0x", ".", "a.", "a:", "http:", "\u3000", "\ufeff"}
+	nEnd := 120
+	if tier == "thorough" {
+		nEnd = 1500
+	}
+	for i := 0; i < nEnd; i++ {
+		v := []rune(valid[r.Intn(len(valid))].Src)
+		if len(v) > 60 {
+			v = v[:60]
+		}
+		switch {
+		case i%10 == 0 && len(v) > 0: // all prefixes
+			for k := 0; k <= len(v) && k <= 40; k++ {
+				inputs = append(inputs, c18Input{Src: string(v[:k]), Origin: "ending", Prep: -1, Ansi: -1})
+			}
+		case i%2 == 0:
+			inputs = append(inputs, c18Input{Src: string(v[:r.Intn(len(v)+1)]) + enders[r.Intn(len(enders))], Origin: "ending", Prep: -1, Ansi: -1})
+		default:
+			inputs = append(inputs, c18Input{Src: string(v) + enders[i/2%len(enders)], Origin: "ending", Prep: -1, Ansi: -1})
+		}
+	}
+	for _, e := range enders {
+		inputs = append(inputs, c18Input{Src: e, Origin: "ending", Prep: -1, Ansi: -1}, c18Input{Src: "SELECT 1" + e, Origin: "ending", Prep: -1, Ansi: -1})
 	}
 
 	// ---- (i) scanner correspondence + (iii) parser differential ------------------------------------------
